@@ -11,6 +11,20 @@ from ..core.symbols.symbols import DimensionSymbol, Function, IndexedSymbol
 from .miscellaneous import needs_mul_brackets, needs_add_brackets, process_function
 
 
+def _is_product_or_quotient(text: str) -> bool:
+    """Checks whether ``text`` has a multiplication or division sign outside of any brackets."""
+
+    depth = 0
+    for i, char in enumerate(text):
+        if char == "(":
+            depth += 1
+        elif char == ")":
+            depth -= 1
+        elif depth == 0 and text[i:i + 3] in (" * ", " / "):
+            return True
+    return False
+
+
 class SymbolCodePrinter(StrPrinter):  # type: ignore[misc]
     """
     A printer to convert Symplyphysics law expressions to symbols
@@ -133,7 +147,7 @@ class SymbolCodePrinter(StrPrinter):  # type: ignore[misc]
         quotient_in_denom = (denom.is_Pow and denom.is_commutative and
             (denom.exp is S.NegativeOne or -denom.exp is S.Half))
         sdenom_str = f"({sdenom})" if needs_mul_brackets(denom, first=False,
-            last=True) or mul_in_denom or quotient_in_denom else sdenom
+            last=True) or mul_in_denom or quotient_in_denom or _is_product_or_quotient(sdenom) else sdenom
         tex = f"{snumer_str} / {sdenom_str}"
         return tex
 
